@@ -1949,12 +1949,19 @@ class LazyCryptContext(CryptContext):
                 return
             self._lazy_busy = True
             self._lazy_kwds = None
+            pending = kwds
             try:
+                kwds = dict(kwds)
                 if "onload" in kwds:
                     onload = kwds.pop("onload")
                     kwds = onload(**kwds)
                 super().__init__(**kwds)
                 self.__class__ = CryptContext
+            except BaseException:
+                # a failed first load leaves the context as it was: still unloaded,
+                # with its pending options (incl. onload) intact for the next attempt.
+                self._lazy_kwds = pending
+                raise
             finally:
                 # NOTE: cleared last -- until then other threads block on the lock
                 self._lazy_busy = False
